@@ -23,7 +23,7 @@ def check(ctx, run):
     run.assume("vsnprintf(dst, n, ...) writes at most n bytes including the terminator and returns the untruncated length (C99)")
     run.not_decided.append("the exact message text for every operand pair; termination of the operand rendering helpers on arbitrary bytes (C13)")
     run.rule("R1", "fixed buffer: under the invariant (write_limit_ <= LEN-1, positions_filled_ <= LEN-1) established by every writer of the two fields, add() folded over the boundary lattice of (limit, fill, vsnprintf result) never hands vsnprintf a window outside [0, LEN) and re-establishes the invariant", floor=150, exhaustive=True)
-    run.rule("R2", "footer reservation: the space reserved when a leak report starts covers the worst-case text appended after the limit is reset (too-many notice + total line + malloc warning); the notice is printed iff the capacity was reached before the reset", floor=5)
+    run.rule("R2", "footer reservation: the leak report folded over scripted table walks (0..3 leaks x allocator kinds x buffer full or not): the write limit is set before any text, the capacity is sampled before the limit is reset, the total line states the number of leaks walked also when the buffer was full, the too-many notice appears iff it was full, the malloc warning iff a malloc leak was seen; the space left by the limit covers the worst-case text added after the reset", floor=5)
     run.rule("R3", "first-difference scans: every loop that advances while two sequences agree also stops at the end of a sequence, unless every construction site of the failure is dominated by a comparison != 0 of the very same operands (frozen exceptions); the scans are also exercised by the R4 folds on operand pairs whose printable renderings coincide", floor=4)
     run.rule("R4", "content: expected before actual in the but-was text; string kinds render through the printable form; the reported position is the raw index and the marker offset the printable one; the padding covers half the window", floor=8)
 
@@ -109,86 +109,9 @@ def check(ctx, run):
     run.ob("R1", "reachedItsCapacity folded: true exactly when the fill has reached the limit", rc.site, okc)
 
     # ---------------- R2 ----------------------------------------------------
-    st = prog.fn(OSB + "::startMemoryLeakReporting")
-    sp = prog.fn(OSB + "::stopMemoryLeakReporting")
-    run.analysed(st)
-    run.analysed(sp)
-    ev = Evaluator(prog, st, env={"total_leaks_": 5, "giveWarningOnUsingMalloc_": 1})
-    ev.pass_object = False
-    lim = []
-    ev.calls[SSB + "::setWriteLimit"] = lambda v: (lim.append(v), 0)[1]
-    try:
-        ev.run_blocks(st.entry)
-        wraps = getattr(ev, "wraps", [])
-    except Unknown as u:
-        lim, wraps = ["unknown: %s" % u], []
-    reserve = (LEN - lim[0]) if lim and isinstance(lim[0], int) else None
-
-    def added_text(fn_name):
-        f = prog.fn(OSB + "::" + fn_name)
-        out = 0
-        for c in f.calls():
-            if (prog.callee_name(f, c) or "") == SSB + "::add":
-                a = f.args(c)
-                fmt = literal_of(f, a[0])
-                if fmt is None:
-                    return None
-                specs = [m.group(1) for m in FMT.finditer(fmt)]
-                base = len(FMT.sub("", fmt))
-                i = 1
-                for sp_ in specs:
-                    if sp_ == "s":
-                        l = literal_of(f, a[i]) if i < len(a) else None
-                        if l is None:
-                            return None
-                        base += len(l)
-                    elif sp_ == "d":
-                        base += 10      # a non-negative int: fewer than 2^31 leaks (assumption recorded)
-                    elif sp_ == "%":
-                        base += 1
-                        continue
-                    else:
-                        return None
-                    i += 1
-                out += base
-        return out
-    need = [added_text("addErrorMessageForTooMuchLeaks"), added_text("addMemoryLeakFooter"), added_text("addWarningForUsingMalloc")]
-    avail = (LEN - 1 - lim[0]) if lim and isinstance(lim[0], int) else None
     run.assume("fewer than 2^31 leaks are reported in one run (the total is printed through (int))")
-    ok = avail is not None and all(n is not None for n in need) and avail >= sum(need) and not wraps and 0 < lim[0] <= LEN - 1
-    run.ob("R2", "reserved footer space covers too-many notice + total line + malloc warning (+ terminator)", st.site, ok, witness={"reserved": reserve, "available_after_reset": avail, "worst_case_appended": need, "limit": lim},
-           what="" if ok else "the footer can be truncated: the report would not state the total or the too-many notice")
-    a = [(l, render(st, r)) for l, r, n in assignments(st)]
-    run.ob("R2", "a report starts with total 0 and no malloc warning", st.site, ("total_leaks_", "0") in a and ("giveWarningOnUsingMalloc_", "false") in a, witness=a)
-    for p in enumerate_paths(sp):
-        val = p.val()
-        names = [(prog.callee_name(sp, c) or "").split("::")[-1] for c in path_calls(prog, sp, p)]
-        none = val.get("total_leaks_") is False or val.get("(0 == total_leaks_)") is True or val.get("(total_leaks_ == 0)") is True
-        if none:
-            own = [n_ for n_ in names if n_.startswith("add") and n_ != "add" or n_ in ("reachedItsCapacity", "resetWriteLimit")]
-            ok = own == ["addNoMemoryLeaksMessage"]
-            run.ob("R2", "no leaks: only the no-leaks message", sp.site, ok, witness=names)
-            continue
-        cap = val.get("buffer_reached_its_capacity")
-        why = []
-        if "reachedItsCapacity" not in names or "resetWriteLimit" not in names or names.index("reachedItsCapacity") > names.index("resetWriteLimit"):
-            why.append("capacity must be sampled before the limit is reset")
-        if cap is None or names.count("addErrorMessageForTooMuchLeaks") != (1 if cap else 0):
-            why.append("too-many notice printed %d times with capacity reached = %s" % (names.count("addErrorMessageForTooMuchLeaks"), cap))
-        if names.count("addMemoryLeakFooter") != 1:
-            why.append("total line printed %d times" % names.count("addMemoryLeakFooter"))
-        mw = val.get("giveWarningOnUsingMalloc_")
-        if mw is None or names.count("addWarningForUsingMalloc") != (1 if mw else 0):
-            why.append("malloc warning mismatch")
-        run.ob("R2", "stop [%s]" % short(p.describe(sp), 100), sp.site, not why, witness=names, what="; ".join(why))
-
-    rl = prog.fn(OSB + "::reportMemoryLeak")
-    run.analysed(rl)
-    cnts = count_on_paths(prog, rl, enumerate_paths(rl), lambda n: n["k"] == "UnaryOperator" and n.get("op") == "++" and render(rl, n["c"][0]) == "total_leaks_")
-    run.ob("R2", "every reported leak is counted, also when its text no longer fits (the total stays true when entries are dropped)", rl.site, bool(cnts) and all(c == 1 for c in cnts), witness=cnts,
-           what="" if cnts and all(c == 1 for c in cnts) else "leaks dropped from the text are also dropped from the total")
-    cs = [render(sp, c) for c in sp.calls() if "addMemoryLeakFooter" in render(sp, c)]
-    run.ob("R2", "the total line prints the counted total", sp.site, cs == ["addMemoryLeakFooter(total_leaks_)"], witness=cs)
+    from .shared import report_rules
+    report_rules(prog, run, "R2", "R2", LEN)
 
     # ---------------- R3 ----------------------------------------------------
     EXC = {  # constructor -> reason the raw scan may omit the end test
